@@ -43,9 +43,13 @@ class Script:
     def __init__(self, name):
         self.name, self.ops, self.asks = name, [], {}
 
-    def start(self, i, api, timeout_ms, nresp, target=0):
+    def start(self, i, api, timeout_ms, nresp, target=0, cancel=False):
         self.asks[i] = {"api": api, "timeout_ms": timeout_ms, "nresp": nresp, "target": target}
-        self.ops.append({"op": "start", "i": i, "api": api, "timeout_ms": timeout_ms, "nresp": nresp, "target": target})
+        self.ops.append({"op": "start", "i": i, "api": api, "timeout_ms": timeout_ms, "nresp": nresp, "target": target, "cancel": cancel})
+        return self
+
+    def cancel(self, i):
+        self.ops.append({"op": "cancel", "i": i})
         return self
 
     def to_select(self, i):
@@ -100,12 +104,30 @@ def scripts(ctx):
         api = APIS[k % 3]
         s = Script("W-both-ready-%d" % k).start(0, api, short, 1 + (k % 2)).to_select(0).wait(0).run_done("R0").deadline(0).run_done("A0")
         out.append(s)
+    # the same with a cancelled context instead of the deadline (the ctx.Done branch of each Ask)
+    n_canc = 18 if ctx.thorough else 9
+    for k in range(n_canc):
+        api = APIS[k % 3]
+        s = Script("W-both-ready-cancel-%d" % k).start(0, api, 3000, 1, 0, True).to_select(0).wait(0).run_done("R0").cancel(0).run_done("A0")
+        out.append(s)
+    for api in APIS:
+        s = Script("W-cross-cancel-" + api).op("drain_ch_pool").start(0, api, 3000, 1, 0, True).to_select(0).wait(0)
+        s.run_until("R0", "Response", "select").cancel(0).run_done("A0")
+        s.start(1, api, 2000, 1).to_select(1).run_done("R0").wait(1).run_done("R1").run_done("A1")
+        out.append(s)
     # stale reply lands in the channel after it was pooled again: the NEXT ask finds it there
     for api in APIS[:2]:
         s = Script("W-stale-in-pool-" + api).op("drain_ch_pool").start(0, api, short, 1, 0).to_select(0).wait(0)
         s.run_until("R0", "Response", "select").deadline(0).run_done("A0")
         s.start(1, api, 2000, 1, 1).to_select(1).wait(1).run_done("R1").run_done("A1").run_done("R0")
         s.start(2, api, 2000, 1, 1).to_select(2).wait(2).run_done("R2").run_done("A2")
+        out.append(s)
+    # a handler that calls Response twice: the second call comes after the asker has returned and pooled
+    # its channel again; it must be refused, else the next Ask finds a stale reply
+    for api in APIS:
+        s = Script("W-double-response-" + api).op("drain_ch_pool").start(0, api, 2000, 2).to_select(0).wait(0)
+        s.run_until("R0", "Response", "select").run_until("R0", "Response", "").run_done("A0").run_done("R0")
+        s.start(1, api, 2000, 1).to_select(1).wait(1).run_done("R1").run_done("A1")
         out.append(s)
     # ---- generated compositions ----
     n_gen = 90 if ctx.thorough else 26
@@ -153,7 +175,7 @@ def translate(script, out):
     """log of executed steps -> model labels (as Coq text) + expected results; returns (fixed_shape, labels, nresps, exp)"""
     asks = {a["id"]: a for a in out["asks"]}
     log = out["log"]
-    fixed = not any(e["kind"] == "closed.Store" for e in log)
+    fixed = not any(e["kind"] == "closed.Store" and e["t"].startswith("A") for e in log)
     has_poll = {}
     for e in log:
         if e["fn"] == "pollResponseChannel":
@@ -360,6 +382,7 @@ def run(ctx):
         for sig, text in oracle(s, o):
             seen.setdefault(sig, []).append((s, o, text))
     n_lost_trials = sum(1 for k, s, o in good if s.name.startswith("W-both-ready"))
+    n_cancel_trials = sum(1 for k, s, o in good if s.name.startswith("W-both-ready-cancel"))
     n_lost = len([1 for s, o, t in seen.get(SIG_LOST, []) if s.name.startswith("W-both-ready")])
     for sig, lst in seen.items():
         s, o, text = lst[0]
@@ -393,7 +416,7 @@ def run(ctx):
                     {"script": scs[-1].name, "results": outs[-1].get("asks") if outs else None}],
         "scripts": len(scs), "scripts_replayed_through_model": len(rows), "model_mismatches": len(mism),
         "steps_logged": sum(len(o.get("log") or []) for o in outs),
-        "both_ready_trials": n_lost_trials, "both_ready_trials_lost": n_lost,
+        "both_ready_trials": n_lost_trials, "both_ready_trials_lost": n_lost, "of_which_by_cancellation": n_cancel_trials,
         "stress_asks": len(stress), "stress_errors": st_err,
         "oracle_findings_by_signature": {k: len(v) for k, v in seen.items()},
         "ask_shape_repaired": fixed_shape,
@@ -401,7 +424,8 @@ def run(ctx):
     })
 
 
-THEOREMS = ["C15_cross_refuted", "C15_lost_refuted", "C15_ctx_reuse_refuted"]
+THEOREMS = ["C15_cross_refuted", "C15_lost_refuted", "C15_ctx_reuse_refuted", "C15_no_cross_delivery_partial",
+            "C15_in_time_reply_returned_partial", "C15_own_reply_partial"]
 
 META = {
     "category": "proof",
